@@ -15,7 +15,7 @@ CHECKS = {
          "All sequences of length 0..4 (quick) / 0..6 (thorough) over 13 per-position header kinds (incl. type-level soft and plain rejections of a well-formed adjacent header, and the predecessor / trusted header itself once more), for non-zero and zero trusted headers, are run on the real VerifyRange; result must be input[:k] by identity with k computed by a reference fold, error iff k<len.",
          "Reference fold (C01 reference + adjacency) and the harness header type's Verify are trusted.", "2.1 C02"),
  "C04": ("E1-seqx", "model_checking",
-         "explicit-state BFS over operation histories on the real store.Store (replay-from-scratch successors, state dedup), invariant oracle in every state",
+         "explicit-state BFS over operation histories on the real store.Store (replay-from-scratch successors, state dedup), invariant oracle in every state; plus stateless DFS over thread schedules of Append/Sync/read (instrumented store package) for the 'once writes are synced' clause",
          "Breadth-first exploration of every history (depth 3 quick / 4 thorough) over Append of all contiguous slices (len<=3, ascending and reversed; thorough: gapped pairs), tail/head/whole/middle/beyond DeleteRange, Append directly followed by DeleteRange on a slow datastore (flush still in flight), Restart, Restart followed by the header right above Head, and ReadAll, plus a clean-restart probe on every state of the last level, for batch sizes {1,2,(3),64} x cache sizes {2,default} x {plain, context-aware+txn} datastore, on the real Store inside a synctest bubble; in every reached state the C04 clauses (gap-free Tail..Head, lookups by height/hash agree, Has/HasAt, all GetRange pairs, Height==Head, Head top of run, every live header readable) are evaluated against a set-of-live-heights model.",
          "State key omits 2Q ghost lists; chain of 5-6 headers; Sync+quiescence after each op (the property is stated for synced writes).", "2.2 C04"),
  "C08": ("E1-seqx", "model_checking",
@@ -131,7 +131,7 @@ def main():
             {"name": "E1-inputs", "path": "harness/pure", "serves_properties": ["C01", "C02"], "kind_free_text": "exhaustive input-product enumeration on the real functions vs reference oracle"},
             {"name": "E1-netx", "path": "harness/p2px", "serves_properties": ["C05", "C09", "C10", "C11", "C13", "C18"], "kind_free_text": "real Exchange/ExchangeServer/Subscriber over libp2p mocknet inside a synctest bubble; scripted peers keyed by (origin, attempt), release gates for arrival order, deadline-honouring stream decorator"},
             {"name": "E1-syncx", "path": "harness/syncx", "serves_properties": ["C03", "C07", "C15", "C16", "C19"], "kind_free_text": "real sync.Syncer + real store.Store in a synctest bubble with a scripted contract-abiding getter (calls held until answered), capturing subscriber and virtual clock; BFS over event histories"},
-            {"name": "E2-schedx", "path": "harness/vrtsrc + harness/cmd/instrument + harness/schedx", "serves_properties": ["C12", "C17", "C14", "C03", "C07", "C19", "C05", "C18"], "kind_free_text": "(harness/schedx on store, harness/schedsync on sync, harness/schedp2p on p2p) controlled scheduler (one runnable thread at a time, decisions at synctest quiescence), source-to-source instrumentation of the repository package through a build overlay, stateless DFS with preemption bounding sharded over single-threaded worker processes"},
+            {"name": "E2-schedx", "path": "harness/vrtsrc + harness/cmd/instrument + harness/schedx", "serves_properties": ["C12", "C17", "C14", "C04", "C03", "C07", "C19", "C05", "C18"], "kind_free_text": "(harness/schedx on store, harness/schedsync on sync, harness/schedp2p on p2p) controlled scheduler (one runnable thread at a time, decisions at synctest quiescence), source-to-source instrumentation of the repository package through a build overlay, stateless DFS with preemption bounding sharded over single-threaded worker processes"},
             {"name": "E1-seqx", "path": "harness/vk/bfs.go + harness/storex", "serves_properties": ["C04", "C06", "C08", "C14"], "kind_free_text": "explicit-state BFS over operation histories on the real store (fresh instance + replay per successor, canonical state key), LogDS commit-log/fault-injecting datastore"},
         ],
         "checks": checks,
